@@ -169,6 +169,12 @@ class Phase:
     active_after_start: bool | None = None
     vtime_start: float = 0.0
     vtime_end: float = 0.0
+    mode: str = "tick"  # how this process was stopped: "tick" = the instant the k-th append_tick returned; "quiet" = the first
+    # instant at/after the k-th persisted tick at which nothing was runnable (every command of every persisted tick executed)
+    row_idle_at_stop: bool | None = None  # handler row read after the stop: idle_since is set (what the next process will see)
+    mem_at_stop: bool | None = None  # the idle layer held the run in memory (`_active_run_ids`) when the process stopped
+    rowevs_at_stop: int = 0  # how many entries of CaseResult.rowevs precede the stop
+    engine_idle_at_stop: bool | None = None  # the reducer state after the last processed tick had nothing queued / in progress
 
 
 @dataclass
@@ -194,6 +200,12 @@ class CaseResult:
     notes: list = field(default_factory=list)
     horizon_hit: bool = False
     appends: list = field(default_factory=list)  # (ticks persisted so far, reducer calls of _process_tick so far, stream writes so far)
+    # what the harness itself saw happen to the run's idle marker, in order (never a read of the store):
+    # ("idle", stream index) the engine announced idleness; ("send", {...}) a send_event through the service returned;
+    # ("released", t) the idle layer dropped the run from memory; ("stop", k) the process stopped
+    rowevs: list = field(default_factory=list)
+    quiet_points: list = field(default_factory=list)  # persisted-tick counts at the instants nothing was runnable (first process)
+    idle_timeout: float | None = None
 
     def phase_steps(self, i: int) -> list:
         p = self.phases[i]
@@ -222,27 +234,113 @@ def crash_now(st: Stack, extra_tasks: list | None = None) -> None:
 def run_crash_case(spec: dict, seed: int, kind: str = "memory", crash_at: list[int] | None = None,
                    horizon: float = 120.0, replay_actions: list[int] | None = None,
                    idle_timeout: float | None = None, pre_populate: Callable[[Any], Any] | None = None,
-                   keep_db: bool = False) -> CaseResult:
+                   keep_db: bool = False, crash_modes: list[str] | None = None) -> CaseResult:
     """Run `spec` on the real stack; each entry k of `crash_at` (in turn) stops the process when the run's
     persisted log reaches k ticks, then a fresh stack is started over the same store.  After the last
-    restart (or without any) the run is given `horizon` virtual seconds to reach a terminal status."""
+    restart (or without any) the run is given `horizon` virtual seconds to reach a terminal status.
+    `crash_modes[i]` = "tick" (default: the instant the append returns) or "quiet" (the first instant at/after that
+    append at which nothing is runnable: the same persisted prefix or a longer one, with every command executed).
+    With `idle_timeout` the stack has the idle-release layer (as WorkflowServer always has)."""
     live.install_observers()
     crash_at = list(crash_at or [])
+    crash_modes = list(crash_modes or [])
+    crash_modes += ["tick"] * (len(crash_at) - len(crash_modes))
     rng = random.Random(seed)
     run = live.Run(copy.deepcopy(spec), rng, replay_actions)
     res = CaseResult(spec=spec, seed=seed, kind=kind, crash_at=list(crash_at))
+    res.idle_timeout = idle_timeout
     res.trace = run.trace
     externals = [dict(e) for e in spec.get("externals", [])]
-    state: dict[str, Any] = {"st": None, "quiet": 0, "tasks": [], "crashed": False, "work_ticks": 0}
+    state: dict[str, Any] = {"st": None, "quiet": 0, "tasks": [], "crashed": False, "work_ticks": 0, "quiet_crash": None,
+                             "idle_seen": {}, "nidle": 0, "inner": None, "count_of": lambda: 0, "sends_pending": 0}
+
+    def sync_idle_events() -> None:
+        # idle announcements of the engine (recorded by the observer at the innermost adapter), merged in order
+        stream = run.trace.stream
+        for i in range(state["nidle"], len(stream)):
+            if type(stream[i][0]).__name__ == "WorkflowIdleEvent":
+                res.rowevs.append(("idle", i))
+        state["nidle"] = len(stream)
+
+    async def row_idle() -> bool | None:
+        h = await state["inner"].query(_hq(res.run_id))
+        return (h[0].idle_since is not None) if h else None
+
+    async def do_send(st: Stack, ev: Any, step: Any) -> None:
+        # the service's send_event hands the tick to the run's external adapter in a task of its own and returns
+        if st.idle is not None:
+            state["sends_pending"] += 1
+        await st.send("h1", ev, step=step)
+
+    def engine_idle() -> bool:
+        """the reducer state after the last reducer call has no queued and no in-progress invocation, and the run has not ended"""
+        last = next((c for c in reversed(run.trace.calls) if c.after is not None), None)
+        if last is None or not last.after.is_running:
+            return False
+        return all(not w.queue and not w.in_progress for w in last.after.workers.values())
+
+    def watch_release(st: Stack) -> None:
+        if st.idle is None:
+            return
+        idle_layer = st.idle
+        orig = idle_layer._release_idle_handler
+
+        async def spy(run_id: str) -> None:
+            before = run_id in idle_layer._active_run_ids
+            await orig(run_id)
+            if before and run_id not in idle_layer._active_run_ids and run_id == res.run_id and not state["crashed"]:
+                sync_idle_events()
+                res.rowevs.append(("released", asyncio.get_event_loop().time()))
+
+        idle_layer._release_idle_handler = spy  # type: ignore[method-assign]
+        orig_get = idle_layer.get_external_adapter
+
+        def get_external_adapter(run_id: str) -> Any:
+            ad = orig_get(run_id)
+            orig_send = ad.send_event
+
+            async def send_event(tick: Any) -> None:
+                mem_before = run_id in idle_layer._active_run_ids
+                await orig_send(tick)
+                if run_id != res.run_id or state["crashed"] or state["st"] is not st:
+                    return
+                # the adapter's send_event has returned: the tick is in the run's mailbox; memory / sqlite store calls never
+                # yield, so nothing of the tick has been processed when the row is read
+                state["sends_pending"] = max(0, state["sends_pending"] - 1)
+                sync_idle_events()
+                ncalls = len(run.trace.calls)
+                idle_now = await row_idle()
+                res.rowevs.append(("send", {"mem_before": mem_before, "mem_after": run_id in idle_layer._active_run_ids,
+                                            "row_idle": idle_now if ncalls == len(run.trace.calls) else None,
+                                            "tick": type(tick).__name__, "uid": getattr(getattr(tick, "event", None), "uid", None),
+                                            "t": asyncio.get_event_loop().time()}))
+
+            ad.send_event = send_event  # type: ignore[method-assign]
+            return ad
+
+        idle_layer.get_external_adapter = get_external_adapter  # type: ignore[method-assign]
 
     def hook_factory(loop: VLoop) -> Callable[[], bool]:
         def hook() -> bool:
             st: Stack | None = state["st"]
             if st is None:
                 return False
+            qc = state["quiet_crash"]
+            if qc is not None and not state["crashed"] and qc():
+                return True
+            if len(res.phases) == 1 and res.run_id is not None and not state["crashed"]:
+                res.quiet_points.append(state["count_of"]())
             options: list[tuple[str, Any]] = [("gate", k) for k in list(run.waiting)]
             if not state["crashed"]:
                 for i, ext in enumerate(externals):
+                    if ext.get("when_idle"):
+                        # any process lifetime: the engine has nothing to do (it has announced, or will announce, idleness),
+                        # nothing is runnable, every earlier send has returned; `idle_for`: and that for so many seconds
+                        if not run.waiting and engine_idle() and all(t.done() for t in state["tasks"]) and not state["sends_pending"]:
+                            t0 = state["idle_seen"].setdefault(id(ext), loop.time())
+                            if loop.time() - t0 >= float(ext.get("idle_for", 0)):
+                                options.append(("ext", i))
+                        break  # delivered in list order
                     if "after_work_ticks" in ext:
                         # any process lifetime: once the run has persisted that many ticks other than idle checks
                         if state["work_ticks"] >= ext["after_work_ticks"] and not run.waiting:
@@ -262,7 +360,7 @@ def run_crash_case(spec: dict, seed: int, kind: str = "memory", crash_at: list[i
             if ext["op"] == "cancel":
                 state["tasks"].append(loop.create_task(st.cancel("h1")))
             elif ext["op"] == "send":
-                state["tasks"].append(loop.create_task(st.send("h1", ET.mk(ext["ty"], run.fresh(), ext.get("k")), step=ext.get("step"))))
+                state["tasks"].append(loop.create_task(do_send(st, ET.mk(ext["ty"], ext["uid"] if ext.get("uid") is not None else run.fresh(), ext.get("k")), ext.get("step"))))
             else:
                 raise ValueError(ext["op"])
             return True
@@ -276,8 +374,10 @@ def run_crash_case(spec: dict, seed: int, kind: str = "memory", crash_at: list[i
             if asyncio.iscoroutine(r):
                 await r
         view = make_view(inner)
+        state["inner"] = inner
         st = Stack.build(kind, idle_timeout=idle_timeout, store=view, db_path=db_path)
         st.add_workflow("wf", lambda: live.build_workflow(run.spec, run))
+        watch_release(st)
         state["st"] = st
         res.phases.append(Phase(0, 0, 0, 0, vtime_start=loop.time()))
         await st.start()
@@ -285,6 +385,7 @@ def run_crash_case(spec: dict, seed: int, kind: str = "memory", crash_at: list[i
         rid = hd.run_id
         res.run_id = rid
         counts: dict[str, int] = type(view)._verif_ctl["count"]
+        state["count_of"] = lambda: type(state["st"].store)._verif_ctl["count"].get(rid, 0)
 
         def _note_append(run_id: str, n: int) -> None:
             last = next((c for c in reversed(run.trace.calls) if c.caller == "_process_tick"), None)
@@ -294,23 +395,43 @@ def run_crash_case(spec: dict, seed: int, kind: str = "memory", crash_at: list[i
                 res.appends.append((n, sum(1 for c in run.trace.calls if c.caller == "_process_tick"), len(run.trace.stream)))
 
         set_tick_hook(view, _note_append)
-        for k in crash_at:
+        for ci, k in enumerate(crash_at):
             ph = res.phases[-1]
             state["crashed"] = False
             cur_st = st
+            ph.mode = crash_modes[ci]
+
+            def stop_here(cur_st: Stack, mid_tick: bool) -> None:
+                state["crashed"] = True
+                p = res.phases[-1]
+                p.volatile = volatile_at_crash(run, p, mid_tick=mid_tick)
+                p.mem_at_stop = cur_st.active(rid) if cur_st.idle is not None else None
+                p.engine_idle_at_stop = engine_idle()
+                sync_idle_events()
+                p.rowevs_at_stop = len(res.rowevs)
+                res.rowevs.append(("stop", type(cur_st.store)._verif_ctl["count"].get(rid, 0)))
+                crash_now(cur_st, state["tasks"])
 
             def on_tick(run_id: str, n: int, k: int = k, cur_st: Stack = cur_st) -> None:
                 _note_append(run_id, n)
                 if run_id == rid and n >= k and not state["crashed"]:
-                    state["crashed"] = True
-                    res.phases[-1].volatile = volatile_at_crash(run, res.phases[-1])
-                    crash_now(cur_st, state["tasks"])
+                    stop_here(cur_st, True)
 
-            if counts.get(rid, 0) >= k:
+            state["quiet_crash"] = None
+            if ph.mode == "quiet":
+                # stop at the first instant at/after the k-th persisted tick at which nothing is runnable (before the
+                # scheduler opens a gate or delivers an external event)
+                def quiet_crash(k: int = k, cur_st: Stack = cur_st) -> bool:
+                    if type(cur_st.store)._verif_ctl["count"].get(rid, 0) >= k:
+                        state["quiet_crash"] = None
+                        stop_here(cur_st, False)
+                        return True
+                    return False
+
+                state["quiet_crash"] = quiet_crash
+            elif counts.get(rid, 0) >= k:
                 # the log is already this long: stop right now
-                state["crashed"] = True
-                res.phases[-1].volatile = volatile_at_crash(run, res.phases[-1], mid_tick=False)
-                crash_now(cur_st, state["tasks"])
+                stop_here(cur_st, False)
             else:
                 set_tick_hook(st.store, on_tick)
             waited = 0.0
@@ -321,6 +442,7 @@ def run_crash_case(spec: dict, seed: int, kind: str = "memory", crash_at: list[i
                 h = await inner.query(_hq(rid))
                 if h and h[0].status != "running":
                     break
+            state["quiet_crash"] = None
             if not state["crashed"]:
                 res.notes.append(f"crash point {k} not reached (log has {counts.get(rid, 0)} ticks)")
                 break
@@ -332,6 +454,7 @@ def run_crash_case(spec: dict, seed: int, kind: str = "memory", crash_at: list[i
             ph.ticks_at_end = counts.get(rid, 0)
             ph.vtime_end = loop.time()
             state["tasks"] = []
+            ph.row_idle_at_stop = await row_idle()
             # a new process over the same store
             old_log = type(view)._verif_ctl["log"]
             view = make_view(inner)
@@ -340,7 +463,9 @@ def run_crash_case(spec: dict, seed: int, kind: str = "memory", crash_at: list[i
             st = Stack.build(kind, idle_timeout=idle_timeout, store=view, db_path=db_path)
             for name in cur_st.factories:
                 st.add_workflow(name, lambda: live.build_workflow(run.spec, run))
+            watch_release(st)
             state["st"] = st
+            state["sends_pending"] = 0
             state["quiet"] = 0
             run.runner = None
             newp = Phase(len(res.phases), len(run.trace.calls), len(run.trace.steps), counts.get(rid, 0), vtime_start=loop.time(),
@@ -397,6 +522,7 @@ def run_crash_case(spec: dict, seed: int, kind: str = "memory", crash_at: list[i
         lastp.ticks_at_end = len(res.ticks)
         lastp.vtime_end = loop.time()
         res.gates_left = len(run.waiting)
+        sync_idle_events()
         res.actions = list(run.trace.actions)
         # end of the test process
         crash_now(st, state["tasks"])
